@@ -261,5 +261,7 @@ PROPS["C36"] = [("kani", "vk_sim", ["harness::run_hooks", "harness::stream_", "h
                 ("kani", "vk_sim", ["::harness"], ("thorough",))]
 
 LEVEL = {
-    "C01": "other", "C02": "other", "C03": "other", "C04": "other", "C09": "other", "C36": "other", "C17": "other", "C05": "other", "C06": "other", "C07": "other", "C15": "other", "C11": "other", "C12": "other", "C14": "other", "C13": "other", "C10": "other",
+    # "proof": the deciding obligations are deductive proofs (Verus) of the real bodies, generic and unbounded; the bounded Kani complement is listed
+    # separately in the claim text and in evidence.by_kind.  "other": decided by Kani harness contracts only (complete per instantiation or bounded).
+    "C01": "proof", "C02": "proof", "C03": "proof", "C04": "proof", "C09": "proof", "C17": "proof", "C36": "other", "C05": "other", "C06": "other", "C07": "other", "C15": "other", "C11": "other", "C12": "other", "C14": "other", "C13": "other", "C10": "other",
 }
